@@ -641,7 +641,7 @@ func (x *c07Run) runStream(sc *c07Scenario, m *material) {
 	if m.t4 && !cut {
 		res.Probes["length_consistency_cases"]++
 		if r.Err == nil && len(r.Seqs) > 0 {
-			got := gts.Len(r.Seqs[0])
+			got := residuesHeld(r.Seqs[0])
 			if m.declared != m.actual || got != m.declared {
 				x.violate(sc, "length-mismatch-accepted", t4Sig(sc, m), fmt.Sprintf("LOCUS declares %d, the ORIGIN block holds %d residues, the record was accepted with %d residues and no error", m.declared, m.actual, got))
 			}
@@ -695,7 +695,7 @@ func (x *c07Run) runStream(sc *c07Scenario, m *material) {
 		if len(declared) == len(r.Seqs) {
 			res.Probes["declared_length_checked_on_accepted_records"]++
 			for k, seq := range r.Seqs {
-				got := gts.Len(seq)
+				got := residuesHeld(seq)
 				f, ok := fieldsOf(seq)
 				if !ok || declared[k] < 0 || got == declared[k] || (got == 0 && f.Contig.Accession != "") {
 					continue
@@ -925,6 +925,18 @@ func refLocation(in string) bool {
 		return true
 	}
 	return loc(0) && i == len(in)
+}
+
+// residuesHeld is the number of residues a record delivers: the length of
+// what Bytes() returns, not what Len() says (the two are computed apart in
+// gts; when they disagree the larger difference from the declared length is
+// what a caller would meet, and Len() alone could mirror the declared length).
+func residuesHeld(seq gts.Sequence) int {
+	n := len(seq.Bytes())
+	if l := gts.Len(seq); l != n {
+		return -1 - n // never equal to a declared length
+	}
+	return n
 }
 
 func locationAcceptedWrongly(in, out string) string {
